@@ -538,6 +538,18 @@ def P8(ctx, facts):
 
 # ------------------------------------------------------------------ P10 / P11
 
+def only(rule, *needles, floor=1, label=None):
+    """A rule restricted to the obligations whose key mentions one of `needles` (a property claims exactly the clauses that
+    are necessary conditions of *it*); fails closed when fewer than `floor` such obligations exist."""
+    def run(ctx, facts):
+        n0 = len(ctx.obs)
+        rule(ctx, facts)
+        mine = [o for o in ctx.obs[n0:] if any(nd in o.key for nd in needles)]
+        ctx.obs[n0:] = mine
+        ctx.floor("%s|claimed-obligations" % (label or needles[0]), len(mine), floor, "obligations claimed from the shared rule")
+    return run
+
+
 def P10_aspects(*aspects):
     def rule(ctx, facts):
         return P10(ctx, facts, aspects=aspects)
